@@ -93,8 +93,9 @@ class Unbindable(Exception):
 class LoopIter:
     """what a loop invariant sees of the iteration: index i, the iterated sequence, snapshot at entry"""
 
-    def __init__(self, i, seq, entry, item=None):
+    def __init__(self, i, seq, entry, item=None, outer=None):
         self.i, self.seq, self.entry, self.item = i, seq, entry, item
+        self.outer = outer          # LoopIter of the enclosing loop (its index, sequence and entry snapshot)
 
     def done(self, x):
         """x is among the already processed elements (needs a sequence with a position function)"""
@@ -147,6 +148,7 @@ class Run:
         self.depth = 0
         self.old = None
         self.temp_assume = []
+        self.loop_stack = []
 
     # ----------------------------------------------------------------------------------------------
     def assume(self, f):
@@ -937,6 +939,18 @@ class Run:
                 self.oblige('safety', 'index-in-range', lineno, And(0 <= k, k < base.n))
             base.a = z3.Store(base.a, k, self.pack(val, base.esort))
             return
+        if isinstance(base, SDictOfLists):
+            kk = coerce(k, base.ksort)
+            if isinstance(val, _EmptyList):
+                n, a = IntVal(0), base.vals[kk]
+            elif isinstance(val, SList) and not isinstance(val.esort, TupleSpec):
+                n, a = val.n, val.a
+            else:
+                raise Unsupported('store of %r into a dict of lists at line %d' % (val, lineno))
+            base.dom = z3.Store(base.dom, kk, BoolVal(True))
+            base.lens = z3.Store(base.lens, kk, n)
+            base.vals = z3.Store(base.vals, kk, a)
+            return
         if isinstance(base, SDict):
             kk = coerce(k, base.ksort)
             if base.vobj is not None:
@@ -1188,7 +1202,8 @@ class Run:
         if spec is None:
             raise Unsupported('loop #%d (line %d) has no invariant in the contract' % (k, n.lineno))
         entry = View(snap_env(env))
-        it = LoopIter(None, None, entry)
+        outer = self.loop_stack[-1] if self.loop_stack else None
+        it = LoopIter(None, None, entry, outer=outer)
         self.oblige('loop-init', 'loop%d-init' % k, n.lineno, spec.inv(self.view(env), it))
         names, objs, domonly = self.modified_in(n.body + [n.test], env)
         for nm in getattr(spec, 'havoc_names', ()):
@@ -1209,12 +1224,15 @@ class Run:
             self.assume(Not(c))
             return
         if self.branch(c, n.lineno):
+            self.loop_stack.append(it)
             try:
                 self.exec_block(n.body, env)
             except ContinueEx:
                 pass
             except BreakEx:
+                self.loop_stack.pop()
                 return
+            self.loop_stack.pop()
             self.assume_lemmas(spec, env, it)
             self.oblige('loop-preserve', 'loop%d-preserve' % k, n.lineno, spec.inv(self.view(env), it))
             if spec.variant is not None:
@@ -1243,27 +1261,31 @@ class Run:
         if spec is None:
             raise Unsupported('loop #%d (line %d) has no invariant in the contract' % (k, n.lineno))
         entry = View(snap_env(env))
-        it0 = LoopIter(IntVal(0), seq, entry)
+        outer = self.loop_stack[-1] if self.loop_stack else None
+        it0 = LoopIter(IntVal(0), seq, entry, outer=outer)
         self.oblige('loop-init', 'loop%d-init' % k, n.lineno, spec.inv(self.view(env), it0))
         names, objs, domonly = self.modified_in(n.body, env)
         tnames = {x.id for x in ast.walk(n.target) if isinstance(x, ast.Name)}
         self.havoc_for_loop(names - tnames, objs, domonly, env)
         i = fresh('it', I)
         self.assume(And(0 <= i, i <= seq.n))
-        it = LoopIter(i, seq, entry)
+        it = LoopIter(i, seq, entry, outer=outer)
         self.assume(spec.inv(self.view(env), it))
         self.assume_lemmas(spec, env, it)
         if self.branch(i < seq.n, n.lineno):
             item = mkitem(i)
             self.assign(n.target, item, env, n.lineno)
+            self.loop_stack.append(it)
             try:
                 self.exec_block(n.body, env)
             except ContinueEx:
                 pass
             except BreakEx:
                 # state at break flows to the code after the loop; the loop variable keeps its value
+                self.loop_stack.pop()
                 return
-            it2 = LoopIter(i + 1, seq, entry)
+            self.loop_stack.pop()
+            it2 = LoopIter(i + 1, seq, entry, outer=outer)
             self.assume_lemmas(spec, env, it2)
             self.oblige('loop-preserve', 'loop%d-preserve' % k, n.lineno, spec.inv(self.view(env), it2))
             raise PathEnd()
